@@ -236,12 +236,6 @@ example :
 
 /-! ### the order of the merged attrs (finding C13-field-order-greedy-merge) -/
 
-/-- `xs` appears in `ys` in the same relative order (up to `Attr.same`) -/
-def SubseqKeys : List Attr → List Attr → Bool
-  | [], _ => true
-  | _ :: _, [] => false
-  | x :: xs, y :: ys => if x.same y then SubseqKeys xs ys else SubseqKeys (x :: xs) ys
-
 /-- full strength: the order `sorted_attrs` derives respects the order of every class it merged -/
 def field_order_respected : Prop :=
   ∀ classes : List (List Attr), (∀ c ∈ classes, NodupKeys c) →
@@ -299,6 +293,57 @@ example :
     sortByLenDesc classes = [mk "v", mk "b", mk "c"] :: [[mk "v", mk "c"], [mk "b", mk "c"]] ∧
     ∀ c ∈ [[mk "v", mk "c"], [mk "b", mk "c"]], ∀ a ∈ c, findAttr [mk "v", mk "b", mk "c"] a ≠ none := by
   decide
+
+/-- `SubseqKeys` looks at the keys of the second list only -/
+theorem subseqKeys_congr (l₁ : List Attr) : ∀ (c l₂ : List Attr), l₁.map keyOf = l₂.map keyOf →
+    SubseqKeys c l₁ = SubseqKeys c l₂ := by
+  induction l₁ with
+  | nil =>
+    intro c l₂ h
+    cases l₂ with
+    | nil => rfl
+    | cons _ _ => simp at h
+  | cons y ys ih =>
+    intro c l₂ h
+    cases l₂ with
+    | nil => simp at h
+    | cons z zs =>
+      simp only [List.map_cons, List.cons.injEq] at h
+      cases c with
+      | nil => simp [SubseqKeys]
+      | cons x xs =>
+        have hxy : x.same y = x.same z := same_congr_right x ((same_iff_key y z).2 h.1)
+        simp only [SubseqKeys, hxy]
+        split
+        · exact ih xs zs h.2
+        · exact ih (x :: xs) zs h.2
+
+/-- **field_order_respected_partial.** The provable part with the exact hypothesis: on every input
+outside the region of the finding — `orderRespected classes`, the decidable check that the greedy
+order is a linear extension of every class's order — `reduce_attributes` returns the attrs in an
+order in which every merged class finds its own attrs in its own order. -/
+theorem field_order_respected_partial (classes : List (List Attr)) (hn : ∀ c ∈ classes, NodupKeys c)
+    (h : orderRespected classes = true) :
+    ∃ R, reduceAttributes classes = some R ∧ ∀ c ∈ classes, SubseqKeys c R = true := by
+  obtain ⟨R, hR, _⟩ := reduceAttributes_admits classes hn
+  refine ⟨R, hR, ?_⟩
+  intro c hc
+  rw [subseqKeys_congr R c _ (reduceAttributes_order classes hn R hR)]
+  simp only [orderRespected, List.all_eq_true] at h
+  exact h c hc
+
+/-- a later occurrence with a run of two new children in front of a known one:
+`id customer priority total` + `id giftwrap coupon total` — the run keeps its order -/
+example :
+    let mk (n : String) : Attr := { tag := .element, name := n.toList, ns := none, index := 0, types := [], min := 1, max := 1 }
+    let classes := [[mk "id", mk "customer", mk "priority", mk "total"], [mk "id", mk "giftwrap", mk "coupon", mk "total"]]
+    (∀ c ∈ classes, NodupKeys c) ∧ orderRespected classes = true ∧
+    (reduceAttributes classes).map (fun R => R.map (·.name)) =
+      some ["id".toList, "customer".toList, "priority".toList, "giftwrap".toList, "coupon".toList, "total".toList] := by
+  decide
+
+/-- the witness of the finding is outside the hypothesis -/
+example : orderRespected orderWitness = false := by decide
 
 /-! ### type inference -/
 
